@@ -48,6 +48,18 @@ def chk_history(inp):
                 return bad("%s(%d) step %d: reading / printing the screen altered it or the random stream" % (cls.__name__, n, k))
 
 
+def chk_stable(inp):
+    """badly conditioned but constructible screens: the row recursion must not amplify (spectral radius <= 1): values stay of the order of the
+    screen's own excursions over thousands of rows"""
+    for cls, args, kw in ((aotools.PhaseScreenVonKarman, (16, 0.01, 0.2, 1e7), {"n_columns": 2}), (aotools.PhaseScreenKolmogorov, (17, 0.1, 0.2, 1e8), {"stencil_length_factor": 2})):
+        s = cls(*args, random_seed=1, **kw)
+        start = max(abs(s.scrn).max(), 1.0)
+        for k in range(1500):
+            s.add_row()
+        if not numpy.all(numpy.isfinite(s.scrn)) or abs(s.scrn).max() > 1e3 * start:
+            return bad("%s%r: after 1500 rows the screen has grown from %.3g to %.3g (unstable row recursion)" % (cls.__name__, args, start, float(abs(s.scrn).max())), float(abs(s.scrn).max()), "< %g" % (1e3 * start))
+
+
 def chk_multi(inp):
     """several screens in one process with the same geometry but different r0 / L0: each keeps its own statistics (row variance scale)"""
     for cls, kw in ((aotools.PhaseScreenVonKarman, {"n_columns": 2}),):
@@ -65,6 +77,6 @@ def chk_multi(inp):
 
 
 CLAUSES = {"add_row": (chk_history, lambda t, s: [{"steps": 120 if t == "quick" else 600}]), "read": (chk_history, lambda t, s: [{"steps": 40}]), "init": (chk_history, lambda t, s: [{"steps": 3}]),
-           "multi": (chk_multi, lambda t, s: [{}])}
+           "multi": (chk_multi, lambda t, s: [{}]), "stable": (chk_stable, lambda t, s: [{}])}
 if __name__ == "__main__":
     main(CLAUSES)
